@@ -6,7 +6,23 @@ from props.base import to_request, corpus_for  # noqa: F401
 
 ID = 'C11'
 LEAN_MODULES = ['PybtexModel.Props.C11']
-THEOREMS = {}
+THEOREMS = {
+    'C11_matches_spec': 'for EVERY name and format string the model of format_name yields exactly the outcome of the reference rule Spec.formatName (grammar of format strings + formatting rule, transcribed from the property): same string, nesting-limit error exactly where the rule is undefined, syntax error exactly when the format is outside the grammar; never an internal error',
+    'C11_malformed_rejected': 'a malformed format string (unbalanced braces, illegal or repeated brace-level-1 letters, "_" at level 1 -- Spec.wellformed, read off the string, twin of the harness predicate) is rejected with a syntax error for every name, never formatted',
+    'C11_wellformed_accepted': 'conversely a well-formed format string is accepted by the parser; the only possible error is then the brace-nesting limit',
+    'C11_total': 'the model never ends in its internal outcome: parser fuel never exhausted, get_part never fails, BibTeXNameFormatError unreachable, Person(name) fails only with the nesting limit',
+    'C11_grammar_roundtrip': 'the grammar read generatively: every format string printed from a well-formed shape (level-0 characters, parts {pre letters {sep} post}) is well-formed, is read back as exactly that shape, and format_name yields the formatting rule applied to the shape itself',
+    'C11_level0_verbatim': 'brace-level-0 text is copied verbatim: a brace-free prefix of the format is put in front of what the rest yields',
+    'C11_level0_only': 'a format string without braces is returned as it is',
+    'C11_part_omitted_when_empty': 'a part whose name part (first+middle / von / last / jr) is empty contributes nothing, not even pre/post text or a tie',
+    'C11_part_omitted_iff_empty': '... and only then, as soon as the part has a pre-text, a post-text or (in full form) a non-empty token',
+    'C11_part_omitted_iff_empty_full': 'for a person made from a name string (tokens never empty) a part shown in full is omitted iff its name part is empty',
+    'C11_full_vs_abbrev': 'ff shows the token, f its hyphen-aware abbreviation (first letter or special character of each hyphen-separated piece joined by ".-" or the explicit separator)',
+    'C11_explicit_separator': 'an explicit separator is a plain join of the shown (full or abbreviated) tokens',
+    'C11_default_separator': 'default separator: one token as is; two tokens a tie; three or more: tie after the first token iff its text length < 3 else space, spaces between the middle tokens, tie before the last; ".~"/". " when abbreviating',
+    'C11_discretionary_tie': 'a single trailing ~ on the post-text adds a tie iff the text length of the formatted part is < 3, else a blank; ~~ always adds a tie; errors unchanged',
+    'C11_discretionary_tie_no_letters': 'a part without letters: its text acts as post-text, with the same tie directives',
+}
 RULE = ('name shapes of the C04 generator (<= tier token count, comma forms) x every format of <= 2 name parts from the grammar '
         '{letters f l v j single/double in both cases, pre-text, post-text with ./~/~~, explicit separator} + level-0 text; '
         'every string up to the tier length over {{ }} f l x ~ space _ 1} as (mostly malformed) format; seeded random names and formats; '
@@ -157,5 +173,15 @@ def gen_cases(tier, rng, info):
     return cases
 
 
-LEVEL_TEXT = 'filled when the proofs are registered'
-LEVEL_NOTE = ''
+LEVEL_TEXT = ('Machine-checked proof (Lean 4): for EVERY name and EVERY format string the executable model of format_name '
+              '(NameFormatParser, NamePart, join, tie_or_space, bibtex_abbreviate) produces exactly the outcome of an independent reference '
+              '(Spec/NameFormat.lean: declarative grammar of format strings -- level-0 text | { verbatim* letters [{sep}] verbatim* } -- and the '
+              'formatting rule on the parsed shape, transcribed clause by clause from the property), incl. the error classes; malformed formats '
+              '(a predicate read directly off the string) are rejected and well-formed ones accepted; the model is total (no internal outcome). '
+              'Clause theorems (level-0 text, omitted parts, full/abbreviated, explicit/default separator, discretionary ties) are stated on the '
+              'model directly. The model AND the reference are tied to the code by the differential check (reference = implementation on every case).')
+LEVEL_NOTE = ('Trusted: Lean kernel; axioms propext/Classical.choice/Quot.sound only; the hand-written model (Model/NameFormat.lean, Model/Names.lean, '
+              'Model/TeXString.lean) corresponds to pybtex/bibtex/names.py only as far as the differential check explores; letters/digits are ASCII in '
+              'the model (the regexes of the code are Unicode-aware); the reference builds on the C04 split of a name (mkPerson) and the C12 primitives '
+              '(scan, bibtex_len, split_tex_string on "-"), it does not re-specify them; fidelity of the reference rule to the BibTeX program itself is '
+              'by reading (no BibTeX binary to compare with). The format.name$ built-in (name index, memoisation) is covered by C03.')
